@@ -131,7 +131,7 @@ func run(t *testing.T, c *Ceremony) ([][]share.Share, error) {
 		sendStale()
 		time.Sleep(300 * time.Millisecond) // the send is asynchronous: let it reach (and be handled by) the victim's new board
 	}
-	ctx, cancel := context.WithTimeout(context.Background(), 30*time.Second)
+	ctx, cancel := context.WithTimeout(context.Background(), 15*time.Second)
 	defer cancel()
 	if c.Stale != nil && c.Stale.During {
 		go func() {
@@ -158,7 +158,13 @@ func run(t *testing.T, c *Ceremony) ([][]share.Share, error) {
 			}
 		}(i)
 	}
-	wg.Wait()
+	done := make(chan struct{})
+	go func() { wg.Wait(); close(done) }()
+	select {
+	case <-done:
+	case <-time.After(22 * time.Second):
+		return res, fmt.Errorf("ceremony does not terminate: a node is still inside RunDKG 7s after its context expired")
+	}
 	for i, err := range errs {
 		if err != nil {
 			return res, fmt.Errorf("node %d: %w", i+1, err)
@@ -323,6 +329,10 @@ func TestGen(t *testing.T) {
 			out.Dist["t_majority"]++
 		}
 		res, err := run(t, c)
+		for attempt := 1; err != nil && c.Stale != nil && attempt < 3; attempt++ {
+			out.Dist["stale_session_retry"]++
+			res, err = run(t, c)
+		}
 		if err != nil {
 			c.Err = err.Error()
 			out.Violations = append(out.Violations, Violation{Key: "dkg:honest-ceremony-fails", What: fmt.Sprintf("pedersen ceremony among %d honest nodes (t=%d, %d validators) fails: %v", c.N, c.T, c.Vals, err), Replay: *c})
